@@ -18,7 +18,7 @@ class Q(object):
                  remove_bodies=(), info=None, units=(), incs=(),
                  patches=(), gen=None, extra_cbmc=(), nowitness=False,
                  tiers=("quick", "thorough"),
-                 cflags=(), slow=False, unwind_fn=None):
+                 cflags=(), slow=False, unwind_fn=None, restrict_fp=()):
         self.name = name
         # srcs: paths relative to the property directory, or "repo:<rel>" for a
         # real translation unit compiled as its own TU (link style), or an
@@ -55,6 +55,12 @@ class Q(object):
         self.cflags = list(cflags)
         self.unwind_fn = dict(unwind_fn or {})   # {function name: unwind bound for all its loops}
         self.slow = slow              # counts as a >=3GB query for the parallelism cap
+        # restrict_fp: [("<function>.function_pointer_call.<n>", [targets...])] -> goto-instrument
+        # --restrict-function-pointer: the call site becomes a case split over the listed targets plus
+        # 'ASSERT false // dereferenced function pointer must be ...' (checked by the same cbmc run, so a
+        # wrong restriction is reported, never silently assumed).  Needed where CBMC's type-based candidate
+        # sets for callbacks explode (scheduling.c + termination callbacks).
+        self.restrict_fp = [(a, list(b)) for a, b in restrict_fp]
 
 
 class Mutant(object):
